@@ -88,7 +88,9 @@ class SimWorld:
             elif kind == "presource":
                 obj = PriorityResource(env, capacity=cap)
             elif kind == "preemptive":
-                obj = PreemptiveResource(env, capacity=cap)
+                # capacity defaults to 1 as for every other resource (documented signature)
+                obj = PreemptiveResource(env, capacity=cap) if cap != 1 \
+                    else PreemptiveResource(env)
             else:
                 raise ValueError(kind)
             self.res[name] = obj
@@ -416,7 +418,9 @@ class SimWorld:
             elif rtype == "presource":
                 request = res.request(priority=op.get("priority", 0))
             else:
-                request = self._preq(res, op)
+                # the documented SimPy call: request(priority, preempt)
+                request = res.request(priority=op.get("priority", 0),
+                                      preempt=op.get("preempt", True))
             data = (op.get("priority", 0), op.get("preempt", True))
             self.track(request, op["id"], op["res"], "request", name, data)
             if op.get("ctx"):
@@ -501,7 +505,8 @@ def execute(case, setup=None):
     with world.seam as seam:
         try:
             if scenario.get("embedded"):
-                usim.run(world.embedded_main(setup))
+                # the enclosing simulation starts no later than the environment's clock
+                usim.run(world.embedded_main(setup), start=min(0, scenario.get("initial_time", 0)))
                 raise _Done
             world.env = Environment(initial_time=scenario.get("initial_time", 0))
             world.make_resources()
